@@ -142,7 +142,7 @@ class Conversation(object):
     def peer_ready(self, sock):
         if self.segs:
             return True
-        nx = self._next(('peer', 'close'))
+        nx = self._next(('peer', 'close', 'reset'))
         if nx is None:
             return False
         i, kind, payload, gate = nx
@@ -154,7 +154,7 @@ class Conversation(object):
 
     def peer_recv(self, sock, n):
         if not self.segs:
-            nx = self._next(('peer', 'close'))
+            nx = self._next(('peer', 'close', 'reset'))
             if nx is None or self.n_sent() < nx[3]:
                 self.hang = 'recv() on an open connection with a silent peer'
                 raise api.Hang(self.hang)
@@ -164,6 +164,16 @@ class Conversation(object):
             if kind == 'close':
                 self.closed_by_peer = True
                 return b''
+            if kind == 'reset':
+                import errno
+                import socket as _socket
+                self.closed_by_peer = True
+                sock.peer_reset = True
+                raise _socket.error(errno.ECONNRESET, 'Connection reset by peer')
+            # the peer resets the connection right behind these bytes: the RST is already there when they are read
+            nxt = [t for j, t in enumerate(self.turns) if not self.done_turn[j]][:1]
+            if nxt and nxt[0][0] == 'reset' and self.n_sent() >= nxt[0][2]:
+                sock.peer_reset = True
             for s in self.segmenter(i, payload):
                 if s is not None:
                     self.segs.append(s)
